@@ -53,3 +53,8 @@ Example C17_nonvacuous :
                    SetFormatter; Clear Filt; AppendFilter; AppendAttr; AppendPipeline]
   = [(Attr, 4); (Attr, 9); (Filt, 8); (Fmt, 6); (Snk, 1); (Snk, 5); (Pipe, 0); (Pipe, 10)].
 Proof. vm_compute. reflexivity. Qed.
+(* setting the SAME formatter object again leaves exactly one formatter (its identity is 1) *)
+Example C17_nonvacuous_same_formatter_again :
+  run_cfg src_cfg [AppendSink; SetFormatter; SetFormatterAgain; AppendFilter; SetFormatterAgain]
+  = [(Filt, 3); (Fmt, 1); (Snk, 0)].
+Proof. vm_compute. reflexivity. Qed.
